@@ -136,6 +136,18 @@ package altair
 //@   requires spec != nil
 //@   ensures r != nil && r.MinSlashingPenaltyQuotient == spec.MIN_SLASHING_PENALTY_QUOTIENT_ALTAIR && r.ProportionalSlashingMultiplier == spec.PROPORTIONAL_SLASHING_MULTIPLIER_ALTAIR && r.InactivityPenaltyQuotient == spec.INACTIVITY_PENALTY_QUOTIENT_ALTAIR
 
+// ---------------------------------------------------------------- sync aggregate (C03: the signature; C01: the rewards)
+//@ func (li SyncCommitteeBits) GetBit(i) r
+//@   property C03
+//@   opt noalloc
+//@   opt inline=always
+//@   requires i / 8 < len(li)
+//@   ensures r == bl_bit(li, i)
+//@ sort BitsA = SyncCommitteeBits
+//@ sort BalIa = common.BalancesRegistry
+// balance of validator k after the committee positions [0, i) have been rewarded (bit set) or penalised (bit clear) in order
+//@ defrec sync_bal(ver int, bals BalIa, idx VIdxsA, bits BitsA, pr int, k int, i int) int = ite(i <= 0, bal_at(ver, bals, k), ite(idx[i - 1] == k, ite(bl_bit(bits, i - 1), (sync_bal(ver, bals, idx, bits, pr, k, i - 1) + pr) % 18446744073709551616, ite(sync_bal(ver, bals, idx, bits, pr, k, i - 1) >= pr, sync_bal(ver, bals, idx, bits, pr, k, i - 1) - pr, 0)), sync_bal(ver, bals, idx, bits, pr, k, i - 1)))
+
 // BEGIN C18 generated (tools/gen_c18.py in /verif)
 // cancelled: a context cancelled before the call makes it fail; surfaced: a cancellation observed by a poll
 // during the call makes it fail; polled: success after a poll means the context was not cancelled at entry.
@@ -298,7 +310,7 @@ package altair
 //@     invariant ctx_t > old(ctx_t) ==> !ctx_cancelled(ctx, old(ctx_t))
 
 //@ func ProcessSyncAggregate(ctx, spec, epc, state, agg) err
-//@   property C18
+//@   property C18 C03 C01
 //@   panics off
 //@   requires ctx != nil
 //@   opt weakcalls
@@ -312,6 +324,18 @@ package altair
 //@     invariant ctx_t >= old(ctx_t) && (old(ctx_seen) || !ctx_seen)
 //@     invariant ctx_t > old(ctx_t) ==> !ctx_cancelled(ctx, old(ctx_t))
 //@   assigns ghost(n_set_bal)
+//@   opt mul=opaque
+//@   use mul64_range
+//@   assigns heap(CachedPubkey.decompressed)
+//@   ensures c03_signature: err == nil && old(spec != nil && epc != nil && state != nil && agg != nil && spec.SLOTS_PER_EPOCH != 0 && spec.SYNC_COMMITTEE_SIZE < 1048576 && epc.CurrentSyncCommittee != nil && len(epc.CurrentSyncCommittee.CachedPubkeys) >= spec.SYNC_COMMITTEE_SIZE && len(epc.CurrentSyncCommittee.Indices) >= spec.SYNC_COMMITTEE_SIZE && (forall t :: {epc.CurrentSyncCommittee.CachedPubkeys[t]} 0 <= t && t < spec.SYNC_COMMITTEE_SIZE ==> epc.CurrentSyncCommittee.CachedPubkeys[t] != nil)) ==> !st_slot_err(state) && sig_valid(old(agg.SyncCommitteeSignature)) && (exists pks PubPts :: {bls_agg_ok(pks, seq(signing_root(roots_at(st_broots(state), ite(st_slot(state) == 0, 0, st_slot(state) - 1)), state_domain(state, common.DOMAIN_SYNC_COMMITTEE, ite(st_slot(state) == 0, 0, st_slot(state) - 1) / spec.SLOTS_PER_EPOCH))), old(agg.SyncCommitteeSignature))} bls_agg_ok(pks, seq(signing_root(roots_at(st_broots(state), ite(st_slot(state) == 0, 0, st_slot(state) - 1)), state_domain(state, common.DOMAIN_SYNC_COMMITTEE, ite(st_slot(state) == 0, 0, st_slot(state) - 1) / spec.SLOTS_PER_EPOCH))), old(agg.SyncCommitteeSignature)) && len(pks) == bit_rank(old(agg.SyncCommitteeBits), spec.SYNC_COMMITTEE_SIZE) && (forall t :: {bit_rank(old(agg.SyncCommitteeBits), t)} 0 <= t && t < spec.SYNC_COMMITTEE_SIZE && bl_bit(old(agg.SyncCommitteeBits), t) ==> pks[bit_rank(old(agg.SyncCommitteeBits), t)] != nil && pt_bytes(pks[bit_rank(old(agg.SyncCommitteeBits), t)]) == old(epc.CurrentSyncCommittee.CachedPubkeys[t].Compressed)))
+//@   ensures c01_rewards: err == nil && old(spec != nil && epc != nil && state != nil && agg != nil && spec.SLOTS_PER_EPOCH != 0 && spec.SYNC_COMMITTEE_SIZE < 1048576 && epc.CurrentSyncCommittee != nil && len(epc.CurrentSyncCommittee.CachedPubkeys) >= spec.SYNC_COMMITTEE_SIZE && len(epc.CurrentSyncCommittee.Indices) >= spec.SYNC_COMMITTEE_SIZE && (forall t :: {epc.CurrentSyncCommittee.CachedPubkeys[t]} 0 <= t && t < spec.SYNC_COMMITTEE_SIZE ==> epc.CurrentSyncCommittee.CachedPubkeys[t] != nil)) ==> !st_bals_err(state) && !epc_proposer_err(epc, st_slot(state)) && n_set_bal == old(n_set_bal) + spec.SYNC_COMMITTEE_SIZE + 1 && (forall k :: {bal_at(n_set_bal, st_bals(state), k)} bal_at(n_set_bal, st_bals(state), k) == (let b := sync_bal(old(n_set_bal), st_bals(state), old(epc.CurrentSyncCommittee.Indices), old(agg.SyncCommitteeBits), old(((((mul64(mul64(spec.EFFECTIVE_BALANCE_INCREMENT, spec.BASE_REWARD_FACTOR) / epc.TotalActiveStakeSqRoot, epc.TotalActiveStake / spec.EFFECTIVE_BALANCE_INCREMENT) * 2) % 18446744073709551616) / 64) / spec.SLOTS_PER_EPOCH / spec.SYNC_COMMITTEE_SIZE)), k, spec.SYNC_COMMITTEE_SIZE) in ite(k == epc_proposer(epc, st_slot(state)), (b + mul64(old((((((((mul64(mul64(spec.EFFECTIVE_BALANCE_INCREMENT, spec.BASE_REWARD_FACTOR) / epc.TotalActiveStakeSqRoot, epc.TotalActiveStake / spec.EFFECTIVE_BALANCE_INCREMENT) * 2) % 18446744073709551616) / 64) / spec.SLOTS_PER_EPOCH / spec.SYNC_COMMITTEE_SIZE) * 8) % 18446744073709551616) / 56)), bit_rank(old(agg.SyncCommitteeBits), spec.SYNC_COMMITTEE_SIZE))) % 18446744073709551616, b)))
+//@   loop 1
+//@     invariant 0 <= i && i <= spec.SYNC_COMMITTEE_SIZE && len(participantPubkeys) == bit_rank(agg.SyncCommitteeBits, i) && len(participantPubkeys) <= i && n_set_bal == old(n_set_bal) && currentSlot == st_slot(state)
+//@     invariant old(spec != nil && epc != nil && state != nil && agg != nil && spec.SLOTS_PER_EPOCH != 0 && spec.SYNC_COMMITTEE_SIZE < 1048576 && epc.CurrentSyncCommittee != nil && len(epc.CurrentSyncCommittee.CachedPubkeys) >= spec.SYNC_COMMITTEE_SIZE && len(epc.CurrentSyncCommittee.Indices) >= spec.SYNC_COMMITTEE_SIZE && (forall t :: {epc.CurrentSyncCommittee.CachedPubkeys[t]} 0 <= t && t < spec.SYNC_COMMITTEE_SIZE ==> epc.CurrentSyncCommittee.CachedPubkeys[t] != nil)) ==> (forall t :: {bit_rank(agg.SyncCommitteeBits, t)} 0 <= t && t < i && bl_bit(agg.SyncCommitteeBits, t) ==> 0 <= bit_rank(agg.SyncCommitteeBits, t) && bit_rank(agg.SyncCommitteeBits, t) < len(participantPubkeys) && participantPubkeys[bit_rank(agg.SyncCommitteeBits, t)] != nil && pt_bytes(participantPubkeys[bit_rank(agg.SyncCommitteeBits, t)]) == epc.CurrentSyncCommittee.CachedPubkeys[t].Compressed)
+//@   loop 2
+//@     invariant 0 <= i && i <= spec.SYNC_COMMITTEE_SIZE && n_set_bal == old(n_set_bal) + i && bals == st_bals(state) && currentSlot == st_slot(state) && len(participantPubkeys) == bit_rank(agg.SyncCommitteeBits, spec.SYNC_COMMITTEE_SIZE)
+//@     invariant participantReward == ((((mul64(mul64(spec.EFFECTIVE_BALANCE_INCREMENT, spec.BASE_REWARD_FACTOR) / epc.TotalActiveStakeSqRoot, epc.TotalActiveStake / spec.EFFECTIVE_BALANCE_INCREMENT) * 2) % 18446744073709551616) / 64) / spec.SLOTS_PER_EPOCH / spec.SYNC_COMMITTEE_SIZE) && proposerReward == (((((((mul64(mul64(spec.EFFECTIVE_BALANCE_INCREMENT, spec.BASE_REWARD_FACTOR) / epc.TotalActiveStakeSqRoot, epc.TotalActiveStake / spec.EFFECTIVE_BALANCE_INCREMENT) * 2) % 18446744073709551616) / 64) / spec.SLOTS_PER_EPOCH / spec.SYNC_COMMITTEE_SIZE) * 8) % 18446744073709551616) / 56)
+//@     invariant old(spec != nil && epc != nil && state != nil && agg != nil && spec.SLOTS_PER_EPOCH != 0 && spec.SYNC_COMMITTEE_SIZE < 1048576 && epc.CurrentSyncCommittee != nil && len(epc.CurrentSyncCommittee.CachedPubkeys) >= spec.SYNC_COMMITTEE_SIZE && len(epc.CurrentSyncCommittee.Indices) >= spec.SYNC_COMMITTEE_SIZE && (forall t :: {epc.CurrentSyncCommittee.CachedPubkeys[t]} 0 <= t && t < spec.SYNC_COMMITTEE_SIZE ==> epc.CurrentSyncCommittee.CachedPubkeys[t] != nil)) ==> (forall k :: {bal_at(n_set_bal, st_bals(state), k)} bal_at(n_set_bal, st_bals(state), k) == sync_bal(old(n_set_bal), st_bals(state), epc.CurrentSyncCommittee.Indices, agg.SyncCommitteeBits, participantReward, k, i))
 
 //@ func ProcessSyncCommitteeUpdates(ctx, spec, epc, state) err
 //@   property C18
@@ -345,9 +369,10 @@ package altair
 //@   assigns ghost(n_set_score)
 //@   assigns ghost(n_biter), ghost(biter_pos), ghost(biter_reg), ghost(n_set_eb)
 //@   assigns ghost(n_set_bal)
+//@   assigns ghost(n_aelig_write), ghost(n_set_act), ghost(last_set_act_v), ghost(last_set_act_val)
 //@   assigns ghost(n_eth1_reset), ghost(n_slash_reset), ghost(last_slash_reset), ghost(n_set_mix), ghost(last_set_mix_epoch), ghost(last_set_mix), ghost(n_hist_update)
 //@   assigns ghost(n_set_prevjust), ghost(set_prevjust), ghost(n_set_curjust), ghost(set_curjust), ghost(n_set_fin), ghost(set_fin), ghost(n_set_jbits), ghost(set_jbits)
-//@   assigns ghost(n_viter), ghost(viter_pos), ghost(viter_reg), ghost(n_val_write), ghost(n_set_exit), ghost(set_exit_v), ghost(set_exit_val), ghost(n_set_wd), ghost(set_wd_v), ghost(set_wd_val)
+//@   assigns ghost(n_viter), ghost(viter_pos), ghost(viter_reg), ghost(n_val_write), ghost(n_wd_write), ghost(n_set_exit), ghost(set_exit_v), ghost(set_exit_val), ghost(n_set_wd), ghost(set_wd_v), ghost(set_wd_val)
 
 //@ func (state *BeaconStateView) ProcessBlock(ctx, spec, epc, benv) err
 //@   property C18
@@ -366,6 +391,6 @@ package altair
 //@   assigns ghost(n_set_bal)
 //@   assigns ghost(n_set_mix), ghost(last_set_mix_epoch), ghost(last_set_mix)
 //@   assigns ghost(n_set_lhdr), ghost(set_lhdr)
-//@   assigns ghost(n_viter), ghost(viter_pos), ghost(viter_reg), ghost(n_val_write), ghost(n_set_exit), ghost(set_exit_v), ghost(set_exit_val), ghost(n_set_wd), ghost(set_wd_v), ghost(set_wd_val)
+//@   assigns ghost(n_viter), ghost(viter_pos), ghost(viter_reg), ghost(n_val_write), ghost(n_wd_write), ghost(n_set_exit), ghost(set_exit_v), ghost(set_exit_val), ghost(n_set_wd), ghost(set_wd_v), ghost(set_wd_val)
 
 // END C18 generated
